@@ -1,17 +1,19 @@
 """
 C07 -- child output reaches the right log, complete and in order.
 
-L1   the real POutputDispatcher (one, or several sharing one event subscription) fed read by read; correspondence
-     with Model/OutDisp.lean / Model/Strip.lean through drv_c07; monitors: log file vs bytes written, PROCESS_LOG
-     events vs log writes, strip_ansi vs an independent reference stripper.
+L1   the real POutputDispatcher (one, or several sharing one event subscription) fed read by read, at loglevel info
+     and debug (log_to_mainlog); correspondence with Model/OutDisp.lean / Model/Strip.lean through drv_c07; monitors: log
+     file vs bytes written, PROCESS_LOG events vs log writes, strip_ansi vs an independent reference stripper, no
+     exception out of handle_read_event.
 L1.5 real Subprocess objects in a real ProcessGroup over a small simulated kernel (lowest-free descriptor numbers,
      pipes with reference-counted write ends, scripted fork / pipe failures): spawn, child writes, main-loop style
      delivery through group.get_dispatchers(), exit with or without data still in the pipe, reap (Subprocess.finish),
      respawn.  Monitor: every log file holds exactly the bytes its own process wrote on that channel (regression
      for F11: descriptor reuse after a failed fork).
 L2   the unmodified Supervisor.runforever over harness/simkernel.py: children made to write tagged bytes (capture tags
-     included), exits with data still in the pipe, autorestart respawns, fork/pipe faults followed by spawns that reuse
-     the descriptor numbers, start/stop RPCs; monitor mon_c07: real per-process log files and PROCESS_LOG /
+     included, chunks that are not valid UTF-8, bursts up to what a pipe holds written just before the exit), exits with
+     data still in the pipe, autorestart respawns, fork/pipe faults followed by spawns that reuse the descriptor numbers,
+     start/stop RPCs, every daemon log level; os.read honours the requested size; monitor mon_c07: real per-process log files and PROCESS_LOG /
      PROCESS_COMMUNICATION events against the bytes written per child (regressions for F11 and F29).
 """
 import errno, os, re
@@ -25,20 +27,25 @@ GENERATED = ['OutDisp']
 TRUSTED = [
     "modelled, not verified: CPython bytes.split/find/endswith/slicing as in Model/OutDispPy.lean; the Logger/Handler plumbing",
     "the simulated kernel of the L1.5 scenarios (lowest-free descriptor allocation, a pipe reads EOF when all write ends are closed, "
-    "a read drains the pipe) and harness/simkernel.py under the unmodified runforever (L2) -- fidelity to Linux is an assumption; "
-    "L2 scripts inject no read() faults and do not fragment reads below what is in the pipe (a real pipe read returns all that is available)",
+    "a read drains the pipe -- L1.5 replaces options.readfd and so does not see its read size) and harness/simkernel.py under the unmodified "
+    "runforever (L2) -- fidelity to Linux is an assumption: os.read returns at most the requested number of bytes and leaves the rest in the "
+    "pipe, a pipe holds 65536 bytes (a child writing more stays blocked in write(2) and only what entered the pipe counts as written; "
+    "killed or exiting while blocked, the rest was never written), so the real ServerOptions.readfd's size matters; L2 scripts inject no read() faults",
     "the statement-level control flow of the hand-written models against the methods: tied by correspondence (the driver executes recordDirect, proved equal to the two-layer model the theorems use)",
 ]
 ASSUMPTIONS = [
     "a read returning b'' means end of file (options.readfd also maps EAGAIN/EINTR/EBADF to b''; a spurious empty read therefore closes the dispatcher -- outside the theorems)",
     "log rotation and syslog are off for the channel (C19)",
-    "a single read drains what is in the pipe (pipe capacity 64K <= the 128K read size)",
+    "a pipe holds at most 65536 bytes (Linux default; a child that enlarges its pipe with F_SETPIPE_SZ is outside the claim): with it, "
+    "`read_size_covers_pipe` (the regenerated size of readfd's os.read >= 65536) makes the single read of finish()->drain() complete",
 ]
 RULE = ("L1 cases = (dispatcher configuration, token/ANSI/invalid-UTF-8-aware stream, fragmentation, EOF or not), corpus first; "
         "every 1-cut fragmentation of ANSI-bearing streams; interleavings of reads over three dispatchers of two processes; "
         "L1.5 scenarios = random scripts of spawn (ok / fork failure / pipe failure) / write / deliver / exit / reap over 3 processes "
         "with redirect_stderr and capture variants; L2 scenarios = random simkernel scripts (2-4 programs in 2 groups, tagged writes incl. capture tags "
-        "split across passes, exits, autorestart, fork/pipe faults, start/stop RPCs, 20% of ready descriptors not reported) under the real main loop. non-trivial = more than one read (L1) or at least one failed spawn followed by "
+        "split across passes, chunks that are not valid UTF-8 on their own, bursts of 4K..64K (8K/16K/64K boundaries +-1) in mid-life and just before "
+        "an exit, exits, autorestart, fork/pipe faults, start/stop RPCs, 20% of ready descriptors not reported, daemon log level BLAT..WARN) under the "
+        "real main loop; L1 and L1.5 also at loglevel=debug (child output copied to the daemon's log). non-trivial = more than one read (L1) or at least one failed spawn followed by "
         "another spawn (L1.5); distinct = distinct (config, reads) / distinct scripts")
 
 ESC = b'\x1b['
@@ -83,6 +90,10 @@ def check_l1(ctx, cfg, stream, chunks, run, eof, per_step):
     inp = {'level': 'L1', 'cfg': cfg.json(), 'chunks': [hexs(c) for c in chunks], 'eof': eof}
     def bad(kind, what):
         ctx.violation(kind, what, inp)
+    if run.raised:
+        # the loop's guard closes the dispatcher: the chunk is logged but not announced, later output is lost
+        bad('dispatcher-raised:' + run.raised, 'handle_read_event() raised %s on reads %r (mainlog=%d)' % (
+            run.raised, [bytes(c) for c in chunks][:4], cfg.mainlog))
     if run.bad_attr:
         bad('event-attribution', 'event carried the wrong process/pid/channel: %r' % (run.bad_attr[0],))
     if run.other_log():
@@ -146,6 +157,8 @@ def l1_case(ctx, cases, impls, cfg, stream, chunks, eof=True, tag=''):
             ops.append('read ' + hexs(c)); lines.append(run.step(c))
             per_step.append((run.logged[n0:], [d for _, d in run.plog[p0:]]))
             run.plog_events += [e for e in run.seen[e0:] if isinstance(e, run.events_mod.ProcessLogEvent)]
+            if run.raised:
+                break           # the dispatcher has been closed by the loop's error guard
     finally:
         run.finish()
     check_l1(ctx, cfg, stream, chunks, run, eof, per_step)
@@ -170,6 +183,11 @@ CORPUS = [
     ('binary', dict(oev=1), [bytes(range(0, 128)), b'tail'], True),
     ('stderr channel events', dict(channel='stderr', eev=1), [b'err1', b'err2'], True),
     ('capture + events: plog equals log', dict(capture=30, oev=1), [b'a' * 30 + Bt + b'zz', b'z' + Et + b'b' * 30], True),
+    # loglevel=debug: every chunk is decoded for the daemon's own log; chunks that are not valid UTF-8 on their own
+    ('debug level, a character cut by the read boundary', dict(oev=1, mainlog=1), [b'caf\xc3', b'\xa9 au lait\n', b'second line\n'], True),
+    ('debug level, binary', dict(eev=1, channel='stderr', mainlog=1), [b'\xff\xfe\x00', b'ok', b'\x80'], True),
+    ('debug level, capture on, undecodable before the tag', dict(capture=30, oev=1, mainlog=1), [b'na\xefve' + Bt + b'x\xe2', b'\x82\xac' + Et + b'\xe2\x82'], True),
+    ('debug level, strip on', dict(strip=1, oev=1, mainlog=1), [b'\x1b[31m\xc3', b'\xa9\x1b[0m'], True),
 ]
 
 
@@ -193,8 +211,9 @@ def run(ctx):
         if strip and rng.random() < 0.5:
             chunks = [stream] if stream else []
         cfg = Cfg(capture=0 if (strip or rng.random() < 0.5) else rng.choice([5, 30, 1000]), log=rng.choice([1, 1, 1, 0]), strip=strip,
-                  channel=rng.choice(['stdout', 'stderr']), oev=rng.randrange(2), eev=rng.randrange(2))
+                  channel=rng.choice(['stdout', 'stderr']), oev=rng.randrange(2), eev=rng.randrange(2), mainlog=rng.randrange(2))
         l1_case(ctx, cases, impls, cfg, stream, chunks, rng.random() < 0.8, tag=':random')
+        ctx.count('L1-mainlog=%d' % cfg.mainlog)
     ctx.correspond('outdisp', cases, impls)
     strip_function(ctx)
     interleaved(ctx)
@@ -293,7 +312,7 @@ class Kernel:
             e[1].writers -= 1
 
 
-def make_options(kernel, script_state):
+def make_options(kernel, script_state, loglevel=20):
     from supervisor.options import ServerOptions
     from supervisor import loggers
 
@@ -334,7 +353,7 @@ def make_options(kernel, script_state):
             return loggers.getLogger(*a, **kw)
     o = SimOptions()
     o.logger = loggers.getLogger()
-    o.loglevel = 20
+    o.loglevel = loglevel
     o.strip_ansi = False
     o.pidhistory = {}
     return o
@@ -343,7 +362,8 @@ def make_options(kernel, script_state):
 def gen_script(rng):
     """(process settings, ops).  ops: ['spawn', i, how] ['write', i, ch, n] ['deliver'] ['exit', i, reap_with_data]"""
     nproc = 3
-    settings = [{'redirect': rng.random() < 0.3, 'capture': rng.choice([0, 0, 40])} for _ in range(nproc)]
+    lvl = rng.choice([10, 20, 20, 5])          # the daemon's log level (DEBG and below: child output is copied to its own log)
+    settings = [{'redirect': rng.random() < 0.3, 'capture': rng.choice([0, 0, 40]), 'loglevel': lvl} for _ in range(nproc)]
     ops = []
     for _ in range(rng.randrange(6, 26)):
         r = rng.random()
@@ -351,7 +371,10 @@ def gen_script(rng):
         if r < 0.35:
             ops.append(['spawn', i, rng.choice(['ok', 'ok', 'ok', 'forkfail', 'forkfail', 'pipefail'])])
         elif r < 0.7:
-            ops.append(['write', i, rng.choice(['stdout', 'stdout', 'stderr']), rng.choice([1, 3, 10, 30, 200])])
+            op = ['write', i, rng.choice(['stdout', 'stdout', 'stderr']), rng.choice([1, 3, 10, 30, 200])]
+            if rng.random() < 0.3:
+                op.append(rng.randrange(len(NON_UTF8)))      # the write ends with bytes that are not valid UTF-8 on their own
+            ops.append(op)
         elif r < 0.85:
             ops.append(['deliver'])
         else:
@@ -368,6 +391,10 @@ SCRIPTS = [
     ([{'redirect': True, 'capture': 0}] * 3, [['spawn', 0, 'ok'], ['write', 0, 'stdout', 10], ['write', 0, 'stderr', 10], ['write', 0, 'stdout', 10], ['deliver'], ['exit', 0, False]]),
     ([{'redirect': False, 'capture': 40}] * 3, [['spawn', 0, 'ok'], ['write', 0, 'stdout', 10], ['exit', 0, True]]),
     ([{'redirect': False, 'capture': 40}] * 3, [['spawn', 0, 'ok'], ['write', 0, 'stdout', 10], ['deliver'], ['exit', 0, False]]),
+    # loglevel=debug, a multi-byte character cut by the read boundary; the rest read by the loop / still in the pipe at reap
+    ([{'redirect': False, 'capture': 0, 'loglevel': 10}] * 3, [['spawn', 0, 'ok'], ['write', 0, 'stdout', 10, 1], ['deliver'], ['write', 0, 'stdout', 10], ['deliver'], ['exit', 0, False]]),
+    ([{'redirect': False, 'capture': 0, 'loglevel': 10}] * 3, [['spawn', 0, 'ok'], ['write', 0, 'stdout', 10, 1], ['deliver'], ['write', 0, 'stdout', 10], ['exit', 0, True]]),
+    ([{'redirect': True, 'capture': 40, 'loglevel': 5}] * 3, [['spawn', 1, 'ok'], ['write', 1, 'stderr', 30, 0], ['write', 1, 'stdout', 3, 3], ['exit', 1, True]]),
 ]
 
 
@@ -380,7 +407,8 @@ def scenario(ctx, script):
     events.subscribe(events.ProcessLogEvent, seen.append)
     kernel = Kernel()
     st = {'children': {}}
-    opt = make_options(kernel, st)
+    opt = make_options(kernel, st, settings[0].get('loglevel', 20))
+    inp0 = {'level': 'L1.5', 'settings': settings, 'ops': ops}
     paths, pconfigs = {}, []
     for i, s in enumerate(settings):
         for ch in ('stdout', 'stderr'):
@@ -403,7 +431,13 @@ def scenario(ctx, script):
             d = combined[fd]
             e = kernel.fds.get(fd)
             if d.readable() and e and e[0] == 'r' and (e[1].queue or e[1].writers == 0):
-                d.handle_read_event()
+                try:
+                    d.handle_read_event()
+                except Exception as ex:
+                    # runforever()'s per-dispatcher guard: handle_error() closes the dispatcher -- the chunk is not announced
+                    # and whatever the child writes from now on is never logged
+                    ctx.violation('dispatcher-raised:' + type(ex).__name__, 'handle_read_event() of %r raised %r' % (d, ex), inp0)
+                    d.handle_error()
                 ctx.count('L1.5-reads')
 
     def child_exit(i):
@@ -413,6 +447,13 @@ def scenario(ctx, script):
         if ch['stderr'] is not ch['stdout']:
             ch['stderr'].writers -= 1
         return pid
+
+    def reap(i, pid):
+        try:
+            procs[i].finish(pid, 0)
+        except Exception as ex:
+            # finish() -> drain() reads without the loop's guard: this exception ends supervisord (C06) and the output is lost
+            ctx.violation('finish-raised:' + type(ex).__name__, 'Subprocess.finish() of p%d raised %r' % (i, ex), inp0)
 
     for op in ops:
         if op[0] == 'spawn':
@@ -449,6 +490,9 @@ def scenario(ctx, script):
                 continue
             seq[0] += 1
             data = ((b'<p%d.%s.%d>' % (i, ch[3:].encode(), seq[0])) * (n // 8 + 1))[:n]      # n bytes, tagged with the writer
+            if len(op) > 4 and op[4] is not None:
+                data += NON_UTF8[op[4] % len(NON_UTF8)]
+                ctx.count('L1.5-writes-not-utf8')
             st['children'][alive[i]][ch].queue += data
             expected[i, 'stdout' if settings[i]['redirect'] else ch] += data
             ctx.count('L1.5-writes')
@@ -464,12 +508,12 @@ def scenario(ctx, script):
                 deliver()            # the main loop saw the data and the EOF before waitpid reported the child
             elif pending and settings[i]['capture']:
                 reaped_with_data_and_capture[0] = True
-            procs[i].finish(pid, 0)
+            reap(i, pid)
             ctx.count('L1.5-reap-with-data' if with_data and pending else 'L1.5-reap')
     for i in list(alive):
         pid = child_exit(i)
         deliver()
-        procs[i].finish(pid, 0)
+        reap(i, pid)
     inp = {'level': 'L1.5', 'settings': settings, 'ops': ops}
     for (i, ch), path in paths.items():
         with open(path, 'rb') as f:
@@ -567,13 +611,26 @@ def l2_gen(rng):
                 t = rng.choice([od.DOC_BEGIN, od.DOC_END])
                 k = rng.randrange(1, len(t))
                 data = rng.choice([t, t, tag + t, t[:k], t[k:], tag + t[:k]])
+                acts.append(('write', nm, ch, data))
+            elif r > 0.93:
+                acts.append(('writegen', nm, ch, tag, rng.choice(BURSTS)))
+            elif r > 0.75:
+                # chunks that are not valid UTF-8 on their own: binary, latin-1, a multi-byte character cut by the write boundary
+                acts.append(('write', nm, ch, tag + rng.choice(NON_UTF8)))
             else:
                 nbytes = rng.choice([1, 3, 9, 20, 60, 300])
                 data = (tag * (nbytes // 8 + 1))[:max(nbytes, 1)] if r < 0.7 else tag
-            acts.append(('write', nm, ch, data))
+                acts.append(('write', nm, ch, data))
         r = rng.random()
         if r < 0.22:
-            acts.append(('exit', rng.choice(names), rng.choice([0, 0, 1])))
+            nm = rng.choice(names)
+            if rng.random() < 0.4:
+                # a last burst (stack dump, final report) written just before the exit: it is still in the pipe when the child
+                # is reaped unless the loop happens to read the pipe first
+                seq += 1
+                ch = rng.choice(['stdout', 'stdout', 'stderr'])
+                acts.append(('writegen', nm, ch, b'<%s.%s.%d>' % (nm.encode(), ch[3:].encode(), seq), rng.choice(BURSTS)))
+            acts.append(('exit', nm, rng.choice([0, 0, 1])))
         elif r < 0.34:
             acts.append(('fault', rng.choice(['fork', 'fork', 'pipe']), rng.choice([errno.EAGAIN, errno.EMFILE]), rng.choice([1, 1, 2])))
         elif r < 0.46:
@@ -585,6 +642,20 @@ def l2_gen(rng):
     script.append((1024, []))
     script.append((1024, []))
     return progs, script
+
+
+# burst sizes around typical read sizes (4K, 8K, 64K = what a pipe holds, so the most that can be pending at reap time)
+BURSTS = [4096, 8191, 8192, 8193, 16384, 16385, 40000, 65535, 65536]
+NON_UTF8 = [b'\xff\xfe', b'caf\xc3', b'\xa9 au lait', b'\xe2\x82', b'\xac 12', b'na\xefve', b'\x80', b'\xc3\xa9t\xc3']
+LOGLEVELS = [3, 5, 10, 10, 20, 20, 30]      # BLAT TRAC DEBG INFO WARN: at DEBG and below child output is copied to the daemon's own log
+
+
+def expand(script):
+    """('writegen', name, chan, tag, n) -> ('write', name, chan, n bytes made of the repeated tag); keeps replay files small"""
+    out = []
+    for dt, acts in script:
+        out.append((dt, [('write', a[1], a[2], (a[3] * (a[4] // len(a[3]) + 1))[:a[4]]) if a[0] == 'writegen' else a for a in acts]))
+    return out
 
 
 L2_SCRIPTS = [
@@ -613,9 +684,30 @@ L2_SCRIPTS = [
      [(1024, [('write', 'p0', 'stdout', b'a' * 30 + od.DOC_BEGIN[:9])]), (1024, [('write', 'p0', 'stdout', od.DOC_BEGIN[9:] + b'cap' + od.DOC_END[:5])]),
       (1024, [('write', 'p0', 'stdout', od.DOC_END[5:] + b'tail'), ('exit', 'p0', 0)]), (1024, []), (1024, [])], 3),
 ]
+# (programs, script, ready seed, (ready probability, daemon log level))
+L2_SCRIPTS2 = [
+    # a burst written just before the exit and not seen by poll(): drained by finish() -- every size up to what a pipe holds
+    ([dict(name='p0', group='g0', autorestart='false', startsecs=0, capture=0, events=True)],
+     [(1024, []), (1024, [('lateio', 1, 0.0), ('writegen', 'p0', ch, b'<p0.%s.1>' % ch[3:].encode(), n), ('exit', 'p0', 0)]), (1024, []), (1024, [])],
+     0, (None, lvl))
+    for n in BURSTS for ch in ('stdout', 'stderr') for lvl in (10, 20)
+] + [
+    # the same with the pipe reported readable: one read by the loop, the rest at reap
+    ([dict(name='p0', group='g0', autorestart='false', startsecs=0, capture=cap, events=True, redirect_stderr=red)],
+     [(1024, []), (1024, [('writegen', 'p0', 'stdout', b'<p0.out.1>', n), ('exit', 'p0', 0)]), (1024, []), (1024, [])], 0, (None, 20))
+    for n in (16385, 40000, 65536) for cap in (0, 40) for red in (False, True)
+] + [
+    # ordinary UTF-8 text cut inside a multi-byte character by the write boundary, at every daemon log level; the second
+    # half is written with the exit (seen by the loop, or only by finish())
+    ([dict(name='p0', group='g0', autorestart='false', startsecs=0, capture=0, events=True)],
+     [(1024, []), (1024, [('write', 'p0', 'stdout', b'<p0.out.1>caf\xc3')]), (1024, []),
+      (1024, ([('lateio', 1, 0.0)] if late else []) + [('write', 'p0', 'stdout', b'\xa9 au lait\n<p0.out.2>second line\n'), ('exit', 'p0', 0)]),
+      (1024, []), (1024, [])], 0, (None, lvl))
+    for late in (False, True) for lvl in (3, 5, 10, 20, 30)
+]
 
 
-def l2_run(ctx, progs, script, ready_seed):
+def l2_run(ctx, progs, script, ready_seed, loglevel=0):
     import random, shutil
     import l2
     from simkernel import SimKernel
@@ -623,10 +715,11 @@ def l2_run(ctx, progs, script, ready_seed):
     shutil.rmtree(logdir, ignore_errors=True)
     os.makedirs(logdir)
     ps = [dict(p, logdir=logdir) for p in progs]
-    k = SimKernel(ps, script, scratch=ctx.scratch, ready_rng=random.Random(ready_seed) if ready_seed else None)
+    k = SimKernel(ps, expand(script), scratch=ctx.scratch, ready_rng=random.Random(ready_seed) if ready_seed else None, loglevel=loglevel)
     k.run()
-    inp = dict(l2.scenario_input(progs, script, ready_seed=ready_seed), level='L2')
+    inp = dict(l2.scenario_input(progs, script, ready_seed=ready_seed, loglevel=loglevel), level='L2')
     mon_c07(ctx, k, inp, logdir)
+    ctx.count('L2-loglevel=%d' % loglevel)
     return k
 
 
@@ -747,10 +840,15 @@ def l2_all(ctx):
     for progs, script, seed in L2_SCRIPTS:
         k = l2_run(ctx, progs, script, seed)
         ctx.case_done(('L2', repr(script)), True)
+    for progs, script, seed, (_, lvl) in L2_SCRIPTS2:
+        k = l2_run(ctx, progs, script, seed, lvl)
+        ctx.case_done(('L2', repr(script), lvl), True)
+        ctx.count('L2-corpus-bursts-and-cut-characters')
     for _ in range(ctx.n(120, 2500)):
         progs, script = l2_gen(rng)
-        k = l2_run(ctx, progs, script, rng.randrange(1, 1 << 30))
-        ctx.case_done(('L2', repr(script)), True)
+        lvl = rng.choice(LOGLEVELS)
+        k = l2_run(ctx, progs, script, rng.randrange(1, 1 << 30), lvl)
+        ctx.case_done(('L2', repr(script), lvl), True)
         ctx.count('L2-forks', sum(1 for r in k.log if r['kind'] == 'fork'))
         ctx.count('L2-child-writes', sum(1 for r in k.log if r['kind'] == 'childwrite'))
 
@@ -761,7 +859,8 @@ def replay(ctx, data):
     if lvl == 'L2':
         import l2
         progs, script = l2.scenario_from_input(inp)
-        l2_run(ctx, progs, script, inp['opts'].get('ready_seed'))
+        script = [(dt, [(a[0], a[1], a[2], bytes.fromhex(a[3]), a[4]) if a[0] == 'writegen' else a for a in acts]) for dt, acts in script]
+        l2_run(ctx, progs, script, inp['opts'].get('ready_seed'), inp['opts'].get('loglevel', 0))
     elif lvl == 'L1.5':
         scenario(ctx, (inp['settings'], inp['ops']))
     elif lvl == 'L1':
@@ -783,7 +882,10 @@ TECHNIQUE = ("Lean 4 theorems over the dispatcher model (refinement to a referen
              "POutputDispatcher / stripEscapes; scenario monitors over real Subprocess objects on a small simulated kernel")
 LEVEL_TEXT = ("no_capture_concat, complete_at_eof, order_and_once, strip_per_read/strip_unfragmented, plog_events_match and attribution are "
               "proved for every stream, fragmentation and interleaving (no bound) over definitions regenerated from /repo; strip_ansi for "
-              "fragmented escapes is a known open finding (F12, counterexample theorem); cross-process attribution with descriptor reuse is "
+              "fragmented escapes is a known open finding (F12, counterexample theorem); read_never_raises / debug_copy_is_silent / "
+              "log_level_irrelevant: the debug-level copy of child output (decode guarded, regenerated handler table) never raises, so every theorem "
+              "holds at every daemon log level; readfd_drains / reap_complete: the regenerated read size covers what a pipe holds, so the single read of "
+              "finish()->drain() leaves nothing behind; cross-process attribution with descriptor reuse is "
               "exercised on real Subprocess objects (L1.5) and under the unmodified runforever on the simulated kernel (L2), not proved")
 LEVEL_NOTE = ("trusts Lean's kernel, extract.py, CPython bytes semantics as modelled, the logger plumbing, the L1.5 kernel simulation; "
               "the L2 kernel simulation (harness/simkernel.py)")
